@@ -39,7 +39,10 @@ left (runtime.Stack profile) – the Go scheduler and channels are not modelled.
 and the port maps / pump counts are additionally compared with the models on every run.
 
 Modelled, not verified: Go's mutexes and scheduler (atomic-step semantics); user call-outs
-(initialiser, store hooks, foreign exit hooks) terminate and do not call back into the same Local.
+(initialiser, store hooks, foreign exit hooks) terminate; they may re-enter the same Local or exit the
+process – the model calls them with no lock of the Local held (`C05.hooks_run_unlocked`, source tie
+`C05.local_calls_out_unlocked` in Props/C05Tie.lean), and the step-level correspondence drives a store
+hook that does exactly that (hook id 100, yield site 8).
 Helper lemmas and the inductive invariants are in `Uniflow/Proofs/{Local,PortMaps,AgentProc,TracerExit}.lean`.
 -/
 import Uniflow.Proofs.Local
@@ -186,6 +189,56 @@ theorem C05.local_holders_progress (sched : List Act) :
     cases hpc' : s.thr t' <;> simp [hpc', holdsLz] at hh
     · simp [enabled, step, hpc']
     · simp only [enabled, step, hpc']; split <;> rfl
+
+/-- The program points at which user code runs: the store hooks fetched by `Store` / `LoadOrStore`
+(`cb`), the hook of `AddStoreHook` called for a value that is already there (`ashCb`), the lazy
+initialiser (`lzFn`), a foreign exit hook (`exitRun _ (park :: _)`). -/
+def Uniflow.Local.isCallout : Uniflow.Local.Pc → Bool
+  | .cb _ _ => true
+  | .ashCb _ _ => true
+  | .lzFn _ _ => true
+  | .exitRun _ (.park :: _) => true
+  | _ => false
+
+/-- **User hooks run with no lock of the Local held.** In every reachable state of the fixed code a
+thread that is inside a call-out does not hold `l.mu` (and, except for the initialiser, which runs
+under its own lazy object's mutex only, holds no lazy mutex either). This is the fact the model relies
+on when it treats what a hook does – `Load`, `Keys`, `Store`, `Delete` on the same Local, `Exit` of the
+process – as ordinary steps of the machine (so that `C05.local_no_deadlock` covers re-entrant hooks):
+the goroutine inside the hook holds nothing another operation could wait for. That the CODE calls
+its hooks outside every critical section of `l.mu` is the regenerated-facts tie
+`C05.local_calls_out_unlocked` (Props/C05Tie.lean); the pinned `Store` (5790134) and seeded change
+c05e are exactly call-outs under the lock. -/
+theorem C05.hooks_run_unlocked (sched : List Act) (t : Tid)
+    (hc : isCallout ((run false init sched).thr t) = true) :
+    (run false init sched).mu ≠ some t ∧
+    (∀ L, ((run false init sched).lz L).owner = some t → ∃ p, (run false init sched).thr t = .lzFn p L) := by
+  have h := allInv_reach sched
+  generalize run false init sched = s at h hc
+  refine ⟨?_, ?_⟩
+  · intro hm
+    have := (h.mu t).mpr hm
+    cases hpc : s.thr t <;> simp [hpc, holdsMu, isCallout] at this hc
+  · intro L ho
+    have := (h.wf.own L t).mpr ho
+    cases hpc : s.thr t <;> simp [hpc, holdsLz, isCallout] at this hc
+    · rename_i p L'; exact ⟨p, by rw [this]⟩
+
+/-- Non-vacuity of `C05.hooks_run_unlocked`, and the re-entrant hook as a schedule: thread 0 is inside
+the hook of `AddStoreHook` (value present); what the hook does – here `Delete` of the same key and then
+`Exit` of the process, on helper thread 1 – runs to completion while thread 0 sits in the hook; then
+thread 0 returns. Nothing blocks. -/
+theorem C05.hooks_run_unlocked_nonvacuous :
+    let pre : List Act := [.call 0 (.store 0 7), .step 0, .step 0, .step 0, .step 0,
+                           .call 0 (.addStoreHook 0 100), .step 0, .step 0]
+    let inner : List Act := [.call 1 (.delete 0), .step 1, .step 1, .call 1 (.exit 0), .step 1, .step 1, .step 1, .step 1, .step 1]
+    let post : List Act := [.step 0, .step 0, .step 0]
+    (run false init pre).thr 0 = .ashCb 100 7 ∧ isCallout ((run false init pre).thr 0) = true ∧
+    (run false init pre).mu = none ∧ yieldSite ((run false init pre).thr 0) = some 8 ∧
+    (run false init (pre ++ inner)).thr 1 = .idle ∧ (run false init (pre ++ inner)).eager 0 = none ∧
+    (run false init (pre ++ inner)).term 0 = true ∧
+    (run false init (pre ++ inner ++ post)).thr 0 = .idle ∧ (run false init (pre ++ inner ++ post)).mu = none := by
+  decide
 
 /-- Non-vacuity: a reachable state with one thread holding `l.mu`, one waiting for it and one
 waiting for a lazy's mutex held by a thread inside the initialiser. -/
